@@ -29,7 +29,7 @@ ASSUMPTIONS = [
     "tasks / timers created by the harness (user-call runners, the scenario driver) are excluded by identity; every other live task or pending TimerHandle belongs to the client",
 ]
 PROBES = ["c15.during_connect_latency", "c15.during_backoff", "c15.mid_handshake", "c15.message_pending", "c15.at_heartbeat", "c15.after_fault",
-          "c15.reinit", "c15.reinit_changed_installation", "c15.socket_class", "c15.shutdown_twice", "c15.quick_reinit_with_pending", "c15.heartbeat_after_reinit", "c15.during_slow_reset", "c15.during_blocked_write", "c15.heartbeat_during_slow_close"]
+          "c15.reinit", "c15.reinit_changed_installation", "c15.socket_class", "c15.shutdown_twice", "c15.quick_reinit_with_pending", "c15.heartbeat_after_reinit", "c15.during_slow_reset", "c15.during_stalled_handshake", "c15.during_blocked_write", "c15.heartbeat_during_slow_close"]
 
 
 def budget(tier: str) -> int:
@@ -70,6 +70,23 @@ def generate(rng, index: int, tier: str) -> dict:
             # exactly the instant the last handshake answer is processed; yield jitter walks through the handler's awaits
             t_s = t0 + 6 * (2 * lat + d)
             info["last_step"] = True
+        if not sock and rng.random() < 0.3:
+            # flow control during the handshake: the peer's window closes just before the k-th answer is processed, so the
+            # handler's next request (or, for an AC in error, the error description request it sends before it moves on) is
+            # held in the transport; shutdown() lands there; the window opens later and the held handler runs on
+            tl[:] = [x for x in tl if x["op"] not in ("console.delay", "console.mute")]
+            L = 2.0**-5
+            knobs["latency"] = L
+            for a in inst["acs"]:
+                if rng.random() < 0.7 and isinstance(a.get("state"), dict):
+                    a["state"]["error"] = rng.choice([3, 5, 0x22])
+            k = rng.randint(1, 6)
+            t_stall = k * 2 * L - L / 2
+            tl.append({"at": t_stall, "op": "net.stall", "on": True})
+            t_s = k * 2 * L + rng.choice([L / 4, L, 0.25])
+            tl.append({"at": t_s + rng.choice([0.25, 0.5, 2.0]), "op": "net.stall", "on": False})
+            info["stalled_handshake"] = k
+            info.pop("last_step", None)
     elif where == "heartbeat":
         fates = [{"kind": "accept", "latency": 0.0}]
         k = rng.choice([1, 2])
@@ -155,6 +172,8 @@ def generate(rng, index: int, tier: str) -> dict:
         idle = rng.choice([2.0, 10.0])
     if info.get("heartbeat_during_slow_close") and idle < 100.0:
         idle = 100.0
+    if info.get("stalled_handshake") and idle < 10.0:
+        idle = 10.0
     t_idle_end = t_s + idle
     info["idle"] = idle
     # sending after shutdown must raise the not-open error
@@ -268,6 +287,8 @@ def execute(sc: dict) -> dict:
         probes["c15.during_slow_reset"] = 1
     if info.get("blocked_write"):
         probes["c15.during_blocked_write"] = 1
+    if info.get("stalled_handshake"):
+        probes["c15.during_stalled_handshake"] = 1
     if info.get("heartbeat_during_slow_close"):
         probes["c15.heartbeat_during_slow_close"] = 1
     if info.get("twice"):
@@ -305,7 +326,7 @@ def execute(sc: dict) -> dict:
                                                              "reset_in_progress": bool(info.get("reset_in_progress"))}, where=info.get("where")))
     # 2. leak check at the end of the idle period
     leak = next((l for l in w.leaks if l["label"] == "idle_end"), None)
-    if leak is not None and stop["t_ret"] > leak["t"]:
+    if leak is not None and stop["t_ret"] >= leak["t"]:  # (same instant: the order of the two is the schedule's, nothing to judge)
         if leak["t"] > stalled_until + 1.0:
             V.append(viol("C15.shutdown_hangs", {"t_call": stop["t_call"], "t_ret": stop["t_ret"]}))
         leak = None
